@@ -7,6 +7,7 @@ package rhp_test
 
 import (
 	"bytes"
+	"errors"
 	"io"
 	"net"
 	"time"
@@ -74,7 +75,7 @@ func encResp(o proto4.Object) []byte {
 // vChain is the server's view of the chain.
 type vChain struct{ tip types.ChainIndex }
 
-func (c *vChain) Tip() types.ChainIndex      { return c.tip }
+func (c *vChain) Tip() types.ChainIndex     { return c.tip }
 func (c *vChain) TipState() consensus.State { return consensus.State{Index: c.tip} }
 func (c *vChain) V2TransactionSet(basis types.ChainIndex, txn types.V2Transaction) (types.ChainIndex, []types.V2Transaction, error) {
 	return c.tip, []types.V2Transaction{txn}, nil
@@ -141,6 +142,7 @@ func rootN(k int) (h types.Hash256) {
 // payouts and revision number are symbolic.
 func newHostWorld(n int) *hostWorld {
 	w := &hostWorld{hostKey: keyFromByte(1), renterKey: keyFromByte(2)}
+	hostFaultsOff = false
 	w.chain = &vChain{tip: types.ChainIndex{Height: 50, ID: types.BlockID{7}}}
 	// the contract may be past its proof height: then it must not be revised
 	w.unrevisable = vapi.Bool("past-proof-height")
@@ -357,6 +359,7 @@ func verifFree(tag string) {
 	if err != nil {
 		vapi.Assert(tag+".abort-clean.revision", sameContract(before.fc, after.fc))
 		vapi.Assert(tag+".abort-clean.roots", sameRoots(before.roots, after.roots))
+		vapi.Assert(tag+".abort-clean.no-signature-released", !releasedFinal(conn.out.Bytes(), &proto4.RPCFreeSectorsResponse{}, &proto4.RPCFreeSectorsThirdResponse{}))
 		if badPrices || badChallenge || !wellFormed {
 			vapi.Reach("rejected")
 		} else {
@@ -386,17 +389,48 @@ func rhp4NewServer(w *hostWorld) *rhp4.Server {
 // lockChecked: every write to a contract happens while the handler holds the
 // contract's lock (this is what serialises RPCs on one contract: a handler
 // that let go of the lock before persisting could straddle a renewal).
+//
+// It also injects the one fault a contract store can have: a write that fails
+// (symbolic, decided when the handler gets there) and changes nothing.
 type lockChecked struct{ *testutil.EphemeralContractor }
+
+var errInjectedStore = errors.New("injected: contract store failure")
+
+// hostFaultsOff switches the injected store failure off (harnesses whose
+// arithmetic is too heavy to carry another branch).
+var hostFaultsOff bool
+
+func persistFails() bool { return !hostFaultsOff && vapi.Bool("persist-fails") }
+
+// releasedFinal: did the handler's output, after the intermediate response
+// (if any), carry a successful final response - the one with the host's
+// signature over the new revision?
+func releasedFinal(out []byte, intermediate, final proto4.Object) bool {
+	r := bytes.NewReader(out)
+	if intermediate != nil && proto4.ReadResponse(r, intermediate) != nil {
+		return false
+	}
+	return proto4.ReadResponse(r, final) == nil
+}
 
 func (c lockChecked) ReviseV2Contract(id types.FileContractID, rev types.V2FileContract, roots []types.Hash256, u proto4.Usage) error {
 	vapi.Assert("persist.contract-locked", c.VerifLocked(id))
+	if persistFails() {
+		return errInjectedStore
+	}
 	return c.EphemeralContractor.ReviseV2Contract(id, rev, roots, u)
 }
 func (c lockChecked) CreditAccountsWithContract(d []proto4.AccountDeposit, id types.FileContractID, rev types.V2FileContract, u proto4.Usage) ([]types.Currency, error) {
 	vapi.Assert("persist.contract-locked", c.VerifLocked(id))
+	if persistFails() {
+		return nil, errInjectedStore
+	}
 	return c.EphemeralContractor.CreditAccountsWithContract(d, id, rev, u)
 }
 func (c lockChecked) CreditPoolsWithContract(d []proto4.AccountDeposit, id types.FileContractID, rev types.V2FileContract, u proto4.Usage) ([]types.Currency, error) {
 	vapi.Assert("persist.contract-locked", c.VerifLocked(id))
+	if persistFails() {
+		return nil, errInjectedStore
+	}
 	return c.EphemeralContractor.CreditPoolsWithContract(d, id, rev, u)
 }
